@@ -20,6 +20,7 @@ func init() {
 		checkUnderFlushMu(c, "C01.21")
 		jsonpNoBinary(c, "C01.22")
 		wtCandidateRevision(c, "C01.23")
+		v3BinaryPayloadCodec(c, "C01.24", false)
 		frameTransportEffects(c, "C01.20")
 		pollingEffects(c, "C01.19")
 		accessorAgreement(c, "C01.17")
@@ -344,8 +345,19 @@ func c01Handoff(c *core.Ctx) {
 	op := c.Fn(R, sockUpgrade+"$onPacket")
 	if op != nil {
 		g := op.Graph()
-		a, b, f := op.CallsTo(sockClearTr), op.CallsTo(sockSetTr), op.CallsTo(sockFlush)
-		ok := len(a) == 1 && len(b) == 1 && len(f) == 1 && g.Dominates(a[0].Loc, b[0].Loc) && g.Dominates(b[0].Loc, f[0].Loc)
+		all, b, f := op.CallsTo(sockClearTr), op.CallsTo(sockSetTr), op.CallsTo(sockFlush)
+		// a clearTransport on the closed edge after the switch (the session closed meanwhile: the new transport is torn
+		// down and the listener returns, fix 22efbbe) is not part of the hand-off
+		var a []*core.Call
+		late := true
+		for _, cl := range all {
+			if len(b) == 1 && g.Dominates(b[0].Loc, cl.Loc) {
+				late = late && g.GuardedBy(cl.Loc, stateIs(sockStateKeys, "closed")) && len(f) == 1 && !g.CanFollow(cl.Loc, f[0].Loc)
+				continue
+			}
+			a = append(a, cl)
+		}
+		ok := late && len(a) == 1 && len(b) == 1 && len(f) == 1 && g.Dominates(a[0].Loc, b[0].Loc) && g.Dominates(b[0].Loc, f[0].Loc)
 		c.Check(R, sockUpgrade+"$onPacket/clearTransport≺setTransport≺flush", op.Pos(), ok, "buffered packets are flushed to the new transport only after it is installed")
 	}
 	n := 0
